@@ -1,19 +1,24 @@
 /-
-  `Simulator.step(new_schedule)` (simulator.py:143-190) as a second driver of the stages of
-  `Sim.lean`: the same `_update_schedules`, pilot application, rate storage and event processing,
-  in the order and under the loop condition `step()` has.
+  `Simulator.step(new_schedule)` (simulator.py:143-199, as repaired by the F17 fix) as a second
+  driver of the stages of `Sim.lean`: the same `_update_schedules`, pilot application, rate storage
+  and event processing, in the order and under the loop condition `step()` has.
 
-      while not empty() and not _resolve and (max_recompute is None
-                                              or _iteration - _last_schedule_update < max_recompute):
+      first_period = True
+      while not empty() and (first_period or (not _resolve and (max_recompute is None
+                                   or _iteration - _last_schedule_update < max_recompute))):
+          first_period = False
           _update_schedules(new_schedule); _last_schedule_update = _iteration; _resolve = False
           grow to max(last_ts + 1, iteration + 1); update_pilots; store rates; iteration += 1
           for e in get_current_events(iteration): event_history.append(e); _process_event(e)
       return empty()
 
-  The code is modelled AS IT IS, including two facts the proofs make explicit
-  (`AcnProofs/Lemmas/EventCoreStep.lean`): `_iteration - None` raises `TypeError` when
-  `max_recompute` is set and no schedule update / EV event has happened yet, and a call made while
-  `_resolve` is set (i.e. any call after a period with an event) does nothing.
+  The schedule handed in is always applied to the current period (when events are left); then the
+  loop continues until the next recompute is due.  NOT repaired (and not part of any property):
+  the events with timestamp t are processed after the trip of period t−1, so timestamp-0 events are
+  processed at iteration 1.
+
+  The definitions with suffix `Unfixed` transcribe the loop condition BEFORE the fix (finding F17);
+  the negative theorems about them are kept in `AcnProofs/Lemmas/EventCoreStep.lean`.
 -/
 import AcnModel.Sim
 
@@ -33,8 +38,8 @@ section
 variable {K : Type} [Add K] [Sub K] [Mul K] [Div K] [Neg K] [LT K] [LE K]
   [DecidableLT K] [DecidableLE K] [OfNat K 0] [OfNat K 1] [NatCast K] [HasExp K]
 
-/-- the `while` condition of `step()` (simulator.py:160-167), with Python's short-circuiting -/
-def stepCond (mr : Option Nat) (c : Core) : Except StepErr Bool :=
+/-- the `while` condition of `step()` BEFORE the F17 fix, with Python's short-circuiting -/
+def stepCondUnfixed (mr : Option Nat) (c : Core) : Except StepErr Bool :=
   if c.pending.isEmpty then .ok false
   else if c.resolve then .ok false
   else
@@ -44,6 +49,12 @@ def stepCond (mr : Option Nat) (c : Core) : Except StepErr Bool :=
       match c.lastUpd with
       | none => .error .typeError
       | some u => .ok (decide ((c.iter : Int) - u < (m : Int)))
+
+/-- the `while` condition of the repaired `step()`: `first` = `first_period` -/
+def stepCond (mr : Option Nat) (first : Bool) (c : Core) : Except StepErr Bool :=
+  if c.pending.isEmpty then .ok false
+  else if first then .ok true
+  else stepCondUnfixed mr c
 
 /-- simulator.py:173-178 -/
 def stepWidthInc (s : State K) : Nat :=
@@ -77,21 +88,21 @@ def stepPass (cfg : Cfg K) (sch : Schedule K) (s : State K) : State K × Option 
     | (s2, some e) => (s2, some e)
     | (s2, none) => eventsStage cfg s2
 
-def stepLoop (cfg : Cfg K) (sch : Schedule K) : Nat → State K → State K × Option StepErr
-  | 0, s => (s, none)
-  | n + 1, s =>
-    match stepCond cfg.maxRecompute s.core with
+def stepLoop (cfg : Cfg K) (sch : Schedule K) : Nat → Bool → State K → State K × Option StepErr
+  | 0, _, s => (s, none)
+  | n + 1, first, s =>
+    match stepCond cfg.maxRecompute first s.core with
     | .error e => (s, some e)
     | .ok false => (s, none)
     | .ok true =>
       match stepPass cfg sch s with
-      | (s', none) => stepLoop cfg sch n s'
+      | (s', none) => stepLoop cfg sch n false s'
       | (s', some e) => (s', some (.base e))
 
 /-- `Simulator.step(new_schedule)`: the state afterwards, the error if it raised, else the
     returned flag `event_queue.empty()` -/
 def step (cfg : Cfg K) (sch : Schedule K) (fuel : Nat) (s : State K) : State K × Except StepErr Bool :=
-  match stepLoop cfg sch fuel s with
+  match stepLoop cfg sch fuel true s with
   | (s', some e) => (s', .error e)
   | (s', none) => (s', .ok s'.core.pending.isEmpty)
 
@@ -103,6 +114,33 @@ def steps (cfg : Cfg K) (fuel : Nat) : List (Schedule K) → State K → State K
     | (s', .error e) => (s', [(.error e, s'.core.iter)])
     | (s', .ok b) =>
       let r := steps cfg fuel rest s'
+      (r.1, (.ok b, s'.core.iter) :: r.2)
+
+/-! ### before the F17 fix (documentation of the finding) -/
+
+def stepLoopUnfixed (cfg : Cfg K) (sch : Schedule K) : Nat → State K → State K × Option StepErr
+  | 0, s => (s, none)
+  | n + 1, s =>
+    match stepCondUnfixed cfg.maxRecompute s.core with
+    | .error e => (s, some e)
+    | .ok false => (s, none)
+    | .ok true =>
+      match stepPass cfg sch s with
+      | (s', none) => stepLoopUnfixed cfg sch n s'
+      | (s', some e) => (s', some (.base e))
+
+def stepUnfixed (cfg : Cfg K) (sch : Schedule K) (fuel : Nat) (s : State K) : State K × Except StepErr Bool :=
+  match stepLoopUnfixed cfg sch fuel s with
+  | (s', some e) => (s', .error e)
+  | (s', none) => (s', .ok s'.core.pending.isEmpty)
+
+def stepsUnfixed (cfg : Cfg K) (fuel : Nat) : List (Schedule K) → State K → State K × List (Except StepErr Bool × Nat)
+  | [], s => (s, [])
+  | sch :: rest, s =>
+    match stepUnfixed cfg sch fuel s with
+    | (s', .error e) => (s', [(.error e, s'.core.iter)])
+    | (s', .ok b) =>
+      let r := stepsUnfixed cfg fuel rest s'
       (r.1, (.ok b, s'.core.iter) :: r.2)
 
 end
